@@ -251,6 +251,7 @@ func (f *Fixture) Table() map[string]interface{} {
 		// tb observes the evaluation of a condition: a condition evaluated twice shows twice in the trace
 		"tb":  func(id int64, b bool) bool { rec.add(id, b); return b },
 		"ix1": int64(1),
+		"pass": func(v interface{}) interface{} { return v },
 		// several results: the rule gets the first one
 		"pr2": func(id int64, v int64) (int64, string, error) { rec.add(id, v); return v + 1, "second", nil },
 		"pr0": func(id int64) { rec.add(id) },
